@@ -15,7 +15,8 @@ RULE = ("one PRNG (VERIF_SEED). A case = (initial Root value, reader chains, his
         "FieldKeys visiting orders). Families: allpairs (one reader effect per field path of a populated "
         "store — structs, Option, Vec, keyed Vec, depth up to 6 — then a write through every writable "
         "path in turn, so every (written path, read path) pair is exercised; readers of collections either "
-        "read them whole or iterate with iter_unkeyed / the keyed iterator), random (random reader "
+        "read them whole or iterate with iter_unkeyed / the keyed iterator; any field on a chain may be handed "
+        "on as a type-erased ArcField), random (random reader "
         "subsets in random creation order, histories mixing set / patch / poke at random reachable paths, "
         "Option and Vec becoming empty and populated again, non-FIFO schedules), keyed (histories of "
         "insert / remove / reorder through the keyed field's own write guard with readers on items and "
@@ -30,7 +31,7 @@ TRUSTED = [
     "extraction to OCaml with ExtrOcamlBasic only, ocamlfind ocamlopt 4.13.1, extract/driver.ml sexp I/O",
     "harness/stores (Rust): fixed #[derive(Store, Patch)] shapes Root/Mid/Sub/Item/Leaf, a type-erased accessor "
     "layer over the public API (field getters, OptionStoreExt::unwrap, StoreFieldIterator::at_unkeyed, AtKeyed::new, "
-    "Read::try_read, Write::try_write, Patch::patch, StoreField::path), one Effect::new per reader, a FIFO/"
+    "ArcField::from, Read::try_read, Write::try_write, Patch::patch, StoreField::path), one Effect::new per reader, a FIFO/"
     "scheduled single-threaded executor installed with Executor::init_local_custom_executor",
     "modelled, not verified (Store/Sim.v, compared with the real crates on every case): reactive_graph's ArcTrigger "
     "subscriber set (ordered Vec, emptied by notify), Effect re-run/clear_sources/re-subscribe, channel wake-up; "
@@ -60,10 +61,14 @@ F = lambda i: [0, i]
 U = [1, 0]
 I = lambda i: [2, i]
 K = lambda k: [3, k]
+E = [4, 0]          # hand the field on as a type-erased ArcField (same path)
+EF = [4, 1]         # ... as an arena-allocated Field (a handle to such an ArcField)
 
 
 def has_child(sch, v, st):
     kind, arg = st
+    if kind == 4:
+        return sch[0] != "keyed"
     if sch[0] == "struct":
         return kind == 0 and 0 <= arg < len(sch[1])
     if sch[0] == "opt":
@@ -78,6 +83,8 @@ def has_child(sch, v, st):
 def child(sch, v, st):
     """(schema, value, position in the value list) of the child addressed by st (which exists)"""
     kind, arg = st
+    if kind == 4:
+        return sch, v, None
     if sch[0] == "struct":
         return sch[1][arg], v[arg], arg
     if sch[0] == "opt":
@@ -92,7 +99,13 @@ def well_typed(chain):
     """the accessor chain type-checks against the store shapes (keyed collections are
     accessed by key only: at_unkeyed on them would alias the segments of the keys)"""
     sch = ROOT
+    prev = None
     for kind, arg in chain:
+        was, prev = prev, (kind, arg)
+        if kind == 4:
+            if sch[0] == "keyed" or arg not in (0, 1) or was == (4, 1):
+                return False
+            continue
         if sch[0] == "struct" and kind == 0 and 0 <= arg < len(sch[1]):
             sch = sch[1][arg]
         elif sch[0] == "opt" and kind == 1 and arg == 0:
@@ -121,6 +134,8 @@ def set_at(tree, chain, new):
         if not ch:
             return new
         s2, v2, pos = child(sch, v, ch[0])
+        if pos is None:
+            return go(s2, v2, ch[1:])
         out = list(v)
         out[pos] = go(s2, v2, ch[1:])
         return out
@@ -147,7 +162,8 @@ def all_chains(tree, sch=ROOT, v=None, pre=()):
 
 
 def tup(chain):
-    return tuple((a, b) for a, b in chain)
+    """the path a chain addresses: its steps without the type-erasure markers"""
+    return tuple((a, b) for a, b in chain if a != 4)
 
 
 def is_prefix(a, b):
@@ -173,6 +189,8 @@ def name(chain):
         elif kind == 3:
             out += "[key %d]" % arg
             sch = sch[1] if sch[0] == "keyed" else INT
+        elif kind == 4:
+            out += "{Field}" if arg == 1 else "{ArcField}"
         else:
             out += "<%d %d>" % (kind, arg)
     return out
@@ -320,7 +338,8 @@ def writable(chain, tree):
     j, sch, _ = reach(tree, chain)
     if j != len(chain):
         return False
-    if len(chain) >= 2 and chain[-1] == F(0) and chain[-2][0] == 3:
+    t = tup(chain)
+    if len(t) >= 2 and t[-1] == (0, 0) and t[-2][0] == 3:
         return False
     return True
 
@@ -345,8 +364,25 @@ def rnd_sched(rng):
 def schema_at(chain):
     sch = ROOT
     for kind, arg in chain:
+        if kind == 4:
+            continue
         sch = sch[1][arg] if sch[0] == "struct" else sch[1]
     return sch
+
+
+def erase_randomly(rng, chain, p=0.25):
+    """insert type-erasure markers: the field reached so far is handed on as an ArcField"""
+    if rng.random() > p:
+        return chain
+    out, sch = [], ROOT
+    for st in list(chain) + [None]:
+        if sch[0] != "keyed" and rng.random() < 0.4:
+            out.append(list(rng.choice([E, EF])))
+        if st is None:
+            break
+        out.append(st)
+        sch = sch[1][st[1]] if sch[0] == "struct" else sch[1]
+    return out
 
 
 def mk(init, readers, steps, sched, orders, kind, rng=None):
@@ -358,6 +394,9 @@ def mk(init, readers, steps, sched, orders, kind, rng=None):
         if rng is not None and well_typed(rd) and schema_at(rd)[0] in ("vec", "keyed") and rng.random() < 0.5:
             it = 1
         flavours.append(it)
+    if rng is not None and kind != "keyed-exact":
+        readers = [erase_randomly(rng, rd) if well_typed(rd) else rd for rd in readers]
+        steps = [[st[0], erase_randomly(rng, st[1], 0.15), st[2]] if st[0] in (0, 1) else st for st in steps]
     return dict(case=C.norm([0, init, readers, steps, sched, orders, flavours]), kind=kind, compare=True)
 
 
@@ -677,23 +716,23 @@ def set_sub(sch, v, rel, new):
 
 def generate(rng, tier):
     quick = tier == "quick"
-    for _ in range(2 if quick else 12):
+    for _ in range(2 if quick else 20):
         for it in gen_basic(rng):
             yield it
-    for _ in range(300 if quick else 3000):
+    for _ in range(300 if quick else 6000):
         yield gen_keyed_small(rng)
-    for _ in range(2500 if quick else 30000):
+    for _ in range(2500 if quick else 60000):
         yield gen_random(rng, rng.randint(2, 9))
-    for _ in range(1500 if quick else 20000):
+    for _ in range(1500 if quick else 40000):
         yield gen_keyed(rng, rng.randint(4, 12))
-    for _ in range(700 if quick else 8000):
+    for _ in range(700 if quick else 15000):
         yield gen_keyed(rng, rng.randint(4, 12), exact=True)
-    for _ in range(700 if quick else 8000):
+    for _ in range(700 if quick else 15000):
         yield gen_patch(rng, rng.randint(2, 6))
-    for _ in range(6 if quick else 60):
+    for _ in range(6 if quick else 100):
         for it in gen_allpairs(rng):
             yield it
-    for _ in range(40 if quick else 400):
+    for _ in range(40 if quick else 800):
         yield gen_keyed_ancestor(rng, shrink=rng.random() < 0.25)
 
 
@@ -716,7 +755,7 @@ def valid_case(item):
             return False
         def ok_chain(ch):
             return isinstance(ch, list) and all(isinstance(s, list) and len(s) == 2 and
-                                                all(isinstance(x, int) and x >= 0 for x in s) and s[0] <= 3
+                                                all(isinstance(x, int) and x >= 0 for x in s) and s[0] <= 4
                                                 for s in ch) and well_typed(ch)
         if not all(ok_chain(rd) for rd in readers):
             return False
@@ -739,9 +778,10 @@ def valid_case(item):
                     continue
                 if not well_formed(sch, st[2]):
                     return False
-                if chain and chain[-1][0] == 3 and st[2][0] != chain[-1][1]:
+                t = tup(chain)
+                if t and t[-1][0] == 3 and st[2][0] != t[-1][1]:
                     return False
-                if len(chain) >= 2 and chain[-1] == F(0) and chain[-2][0] == 3:
+                if len(t) >= 2 and t[-1] == (0, 0) and t[-2][0] == 3:
                     return False
                 if item.get("kind") != "keyed-ancestor" and not keys_kept(sch, v, st[2], top=(op == 0)):
                     return False
@@ -792,21 +832,23 @@ def _oracle(item, impl):
         return ("panic / harness error: " + impl[:200], dict(step=None, reader=None, what="panic"))
     c = item["case"]
     tree, readers, steps, sched = c[1], [tup(r) for r in c[2]], c[3], c[4]
+    raw = c[2]
     if len(impl) != len(steps) + 2:
         return ("observation has %d phases for %d steps" % (len(impl), len(steps)), dict(step=None, reader=None, what='other'))
 
-    def expect_obs(tr, rd):
-        j, _, v = reach(tr, [list(s) for s in rd])
-        return [j, v] if j == len(rd) else [j]
+    def expect_obs(tr, e):
+        j, _, v = reach(tr, raw[e])
+        return [j, v] if j == len(raw[e]) else [j]
 
     cur = {}
+    pending = None
     # initial phase: every reader runs once and sees the initial value
     ph = impl[0]
     ran = [r[0] for r in ph[1]]
     if sorted(ran) != list(range(len(readers))):
         return ("initial phase: readers that ran = %r" % (ran,), dict(step=None, reader=None, what='other'))
     for e, obs in ph[1]:
-        want = expect_obs(tree, readers[e])
+        want = expect_obs(tree, e)
         if obs != want:
             return ("reader %d (%s) initially saw %r, the store holds %r" % (e, name(readers[e]), obs, want), dict(step=None, reader=readers[e], what='value'))
         cur[e] = readers[e] if len(want) == 2 else None
@@ -851,21 +893,29 @@ def _oracle(item, impl):
                 return ("%s: reader %d of %s was notified" % (label, e, what), dict(step=i, reader=(cur.get(e) or readers[e]), what='spurious'))
         if sorted(set(wakes)) != sorted(set(ran)):
             return ("%s: woken tasks %r but effects that ran %r" % (label, wakes, ran), dict(step=i, reader=None, what='other'))
-        # ancestors of the written field are woken before its descendants
+        # readers of ancestors are woken before readers of descendants: for every pair of
+        # notified readers whose paths are in the proper-prefix relation
         if order_path is not None:
-            anc = [e for e in expected if len(cur[e]) < len(order_path)]
-            desc = [e for e in expected if len(cur[e]) > len(order_path)]
-            for a in anc:
-                for d in desc:
-                    if wakes.index(a) > wakes.index(d):
-                        return ("%s: reader %d of descendant %s woken before reader %d of ancestor %s" % (
-                            label, d, name(cur[d]), a, name(cur[a])), dict(step=i, reader=cur[d], what='order'))
-                    if not sched and ran.index(a) > ran.index(d):
-                        return ("%s: reader %d of descendant %s ran before reader %d of ancestor %s" % (
-                            label, d, name(cur[d]), a, name(cur[a])), dict(step=i, reader=cur[d], what='order'))
+            for a in sorted(expected):
+                for d in sorted(expected):
+                    if len(cur[a]) < len(cur[d]) and is_prefix(cur[a], cur[d]):
+                        below = len(cur[a]) > len(order_path)   # both strictly below the written field
+                        bad = None
+                        if wakes.index(a) > wakes.index(d):
+                            bad = "woken"
+                        elif not sched and ran.index(a) > ran.index(d):
+                            bad = "ran"
+                        if bad:
+                            f = ("%s: reader %d of descendant %s %s before reader %d of ancestor %s" % (
+                                label, d, name(cur[d]), bad, a, name(cur[a])),
+                                dict(step=i, reader=cur[d], what='order-below' if below else 'order'))
+                            if not below:
+                                return f
+                            # known class (F-C16-g): remember it, keep checking everything else
+                            pending = pending or f
         # every notified reader sees the value that was written
         for e, obs in runs:
-            want = expect_obs(tree, readers[e])
+            want = expect_obs(tree, e)
             if obs != want:
                 return ("%s: reader %d (%s) saw %r, the store holds %r" % (label, e, name(readers[e]), obs, want), dict(step=i, reader=readers[e], what='value'))
             cur[e] = readers[e] if len(want) == 2 else None
@@ -878,7 +928,7 @@ def _oracle(item, impl):
                     label, name(st[1]), same, st[2]), dict(step=i, reader=tup(st[1]), what='segments'))
     if impl[-1] != tree:
         return ("final store value %r differs from the replayed history %r" % (impl[-1], tree), dict(step=None, reader=None, what='final'))
-    return None
+    return pending
 
 
 def oracle(item, impl):
@@ -913,7 +963,7 @@ def stale_fields(item):
             continue
         new_tree = set_at(tree, chain, st[2])
         for kf in KEYED_FIELDS:
-            if len(chain) < len(kf) and is_prefix(tup(chain), kf):
+            if len(tup(chain)) < len(kf) and is_prefix(tup(chain), kf):
                 old_ids = [x[0] for x in reach(tree, [list(x) for x in kf])[2]]
                 new_ids = [x[0] for x in reach(new_tree, [list(x) for x in kf])[2]]
                 if old_ids != new_ids:
@@ -931,6 +981,10 @@ def classify(item, impl, model):
     if r is None:
         return None
     msg, info = r
+    if info["what"] == "order-below":
+        # F-C16-g: both readers sit strictly below the written field: they are woken by the same
+        # trigger (this of the written field), in subscription order
+        return "F-C16-g"
     stale = stale_fields(item)
     if not stale:
         return None
@@ -983,7 +1037,7 @@ def coverage_extra(results):
                         pairs["descendant"] += 1
                     else:
                         pairs["unrelated"] += 1
-                if st[1] in ([F(4)], [F(1), F(3)]):
+                if tup(st[1]) in KEYED_FIELDS:
                     keyed_updates += 1
             elif st[0] == 1:
                 patches += 1
@@ -993,18 +1047,23 @@ def coverage_extra(results):
                 segment_reports=reports, patches=patches, iterating_readers=iterating)
 
 
-LEVEL_TEXT = ("Coq proofs, for all paths of any depth, that a write through the field at path p wakes a reader of path r "
-              "iff one is a prefix of the other (field, ancestors, descendants; never siblings or cousins), that the "
+LEVEL_TEXT = ("Coq proofs (21+ theorems, no axioms). Paths, any depth: a write through the field at path p wakes a reader of "
+              "path r iff one is a prefix of the other (field, ancestors, descendants; never siblings or cousins); its "
               "position in the notification order is |r| for ancestors and the field itself and |p|+1 for descendants "
-              "(ancestors before descendants), and, for all histories of insert/remove/reorder of a keyed collection and "
-              "all hash-map visiting orders, that live keys never share a path segment, a key keeps its segment while it "
-              "lives and loses it when removed — about an executable Gallina transcription of triggers_for_path, "
-              "track_field, the write guards, Patch and FieldKeys; tied to /repo by running the extracted model "
-              "(store value, KeyMap, per-trigger subscriber lists, effect queue) and the real Store/Effect on a "
-              "deterministic executor over the same generated histories every run, plus an independent Python oracle "
-              "(prefix relation on accessor chains, replayed values).")
+              "(ancestors before descendants). Keyed collections, for all histories of insert/remove/reorder and all "
+              "hash-map visiting orders: live keys never share a path segment, a key keeps its segment while it lives, "
+              "its index is its position, a removed key is dropped. Simulation (store value, KeyMap, ordered subscriber "
+              "set per trigger, source set per effect, run queue), for all shapes, readers, schedules and histories of "
+              "writes/patches/pokes: the subscription state stays consistent and a dropped write guard queues exactly "
+              "the effects whose last run read a related path, ancestors' readers first. All about an executable Gallina "
+              "transcription of triggers_for_path, track_field, the write guards, Patch and FieldKeys; tied to /repo by "
+              "running the extracted simulation and the real Store/Effect on a deterministic executor over the same "
+              "generated histories every run, plus an independent Python oracle (prefix relation on accessor chains, "
+              "replayed values, wake order).")
 LEVEL_NOTE = ("Trusted: Coq kernel, ExtrOcamlBasic extraction + OCaml driver, the Rust harness (fixed derive(Store) "
               "shapes, own executor); modelled not verified: reactive_graph's trigger subscriber sets and effect "
-              "re-subscription, compared on every case. Keyed collections are restructured only through their own "
-              "write guard. No axioms.")
-TECHNIQUE = "Coq proof (induction over paths; invariant over all key histories and visiting orders) + differential correspondence of the extracted model with the Rust code"
+              "re-subscription, compared on every case. Four defects repaired (F-C16-a..d); one open (F-C16-e: keys of a "
+              "keyed collection go stale when it is restructured through an ancestor's write guard) — stated as "
+              "_refuted / _except_known. Box/deref fields, enums and the arena-allocated Field wrapper (a handle to an ArcField) "
+              "are not exercised. No axioms.")
+TECHNIQUE = "Coq proof (induction over paths; invariants over all key histories, visiting orders, schedules and write histories) + differential correspondence of the extracted model with the Rust code"
